@@ -9,6 +9,19 @@ from ..cfg import single_defs
 from ..report import AnalysisError, Report, VERIF
 from ..srcmodel import Source, is_self_attr, unparse
 
+EXPLANATION_SEM = (
+    "  Interpreted part (sa/rules/c13sem.py, a bounded catalogue on top of the every-writer rules): straight-line programs over a "
+    "pool of four FmtStr values (two runs, plain, wide character on a background, three runs with an empty one and a newline) "
+    "built from 28 operations of the public set (+ with FmtStr / str / wide text, *, slicing, splice at the front / inside / "
+    "deleting, append, join, split, splitlines, ljust, rjust, copy_with_new_atts, new_with_atts_removed, copy_with_new_str, "
+    "width_aware_slice, width_aware_splitlines, a delegated str method, fmtstr() re-wrapping, ==, hash): every operation on every "
+    "pool value, every ordered pair of operations with the second applied to the first one's result (a third in thorough), with "
+    "and without observing everything first.  V1 after every step every value that existed before reads the same (str, len, s, "
+    "width, repr, per-character formatting) as when first observed; V2 at the end the memoised views of every value equal those "
+    "of a freshly built equal value; V3 item assignment and every dict mutator (inherited ones included) on a run's attributes "
+    "raise and change nothing."
+)
+
 EXPLANATION = (
     "Effect analysis over every function of the package.  Tracked state: FmtStr.{chunks,_unicode,_len,_s,_width}, "
     "Chunk.{_s,_atts} and the payload of FrozenAttributes.  I1: every attribute store / augmented store / delete / "
@@ -542,7 +555,13 @@ def check(src, rep):
     rep.assumptions = ["Python semantics: *args builds a fresh tuple, list()/dict()/slicing/+ build new containers, **d copies",
                        "receivers other than `self` are matched by attribute name (over-approximation)"]
     counts = run_rules(src, rep)
+    from . import c13sem
+    sem = {}
+    rep.guard(c13sem.run, src, rep, sem)
+    counts.update(sem)
+    rep.explanation = EXPLANATION + EXPLANATION_SEM
     rep.extracted["counts"] = counts
+    rep.floor("interpreted straight-line programs", counts.get("programs", 0), 300)
     rep.floor("stores to tracked fields", counts.get("tracked_field_stores", 0), 11)
     rep.floor("memo accessors", counts.get("memo_accessors", 0), 4)
     rep.floor(".chunks access sites", counts.get("I2-no-inplace-on-shared-chunks_access_sites", 0), 25)
